@@ -14,10 +14,11 @@ chk.extra['rule'] = ('grammar-directed generator of whole .ff/.itp/.map/.mapping
                      'a file case is non-trivial if it has >= 2 top-level declarations of >= 2 kinds, or a fault was '
                      'injected (the real reader must raise); component cases (tokenizer, prefix/order, arity, weights, '
                      'macros) are non-trivial when they contain a brace, a prefix or explicit order, a "--" delimiter, '
-                     'a "!" marker or repeated target, a "$" respectively; distinct = distinct protocol line')
+                     'a "!" marker or repeated target, a "$" respectively; .itp files carry #ifdef pragmas, .map and .mapping files '
+                     'are generated against toy force fields and compared through the driver; distinct = distinct protocol line')
 quiet_vermouth_logs()
 TABLES = c13_extract.extract()
-chk.lean(['VermouthProps.C13', 'VermouthProps.C13Tables'], 'driver_c13',
+chk.lean(['VermouthProps.C13', 'VermouthProps.C13Tables', 'VermouthProps.C13Maps'], 'driver_c13',
          generated={'C13Tables.lean': c13_extract.render(TABLES)})
 
 import vermouth
@@ -25,7 +26,8 @@ from vermouth import ffinput, parser_utils, map_input, map_parser
 from vermouth.ffinput import read_ff, FFDirector
 from vermouth.gmx.itp_read import read_itp, ITPDirector
 from vermouth.forcefield import ForceField
-from vermouth.molecule import Link, Choice
+from vermouth.molecule import Link, Choice, NotDefinedOrNot, LinkParameterEffector
+import c13_mapping
 quiet_vermouth_logs()
 
 KNOWN_IDS = {k['id'] for k in chk.known if k.get('status') == 'known'}
@@ -56,8 +58,22 @@ def repr_j(v):
     if v is None:
         return 'n'
     if isinstance(v, Choice):
-        return 's' + '|'.join(v.value)
+        return 'c' + '|'.join(v.value)
+    if isinstance(v, NotDefinedOrNot):
+        return 'p' + json.dumps(v.value, separators=(',', ':'), sort_keys=True)
     return 'o' + json.dumps(v, separators=(',', ':'), sort_keys=True, default=repr)
+
+
+_EFFECTOR_NAMES = {cls: name for name, cls in ffinput.PARAMETER_EFFECTORS.items()}
+
+
+def canon_param(p):
+    """parameters are kept as written: strings verbatim, effectors re-rendered from the loaded object"""
+    if isinstance(p, str):
+        return p
+    if isinstance(p, LinkParameterEffector):
+        return '%s(%s%s)' % (_EFFECTOR_NAMES[type(p)], ','.join(p.keys), '' if p.format is None else '|' + p.format)
+    return repr(p)
 
 
 def canon_attrs(d):
@@ -68,7 +84,7 @@ def canon_inters(idict):
     out = []
     for sect in sorted(idict):
         for it in idict[sect]:
-            out.append([sect, [str(a) for a in it.atoms], [p if isinstance(p, str) else repr(p) for p in it.parameters]])
+            out.append([sect, [str(a) for a in it.atoms], [canon_param(p) for p in it.parameters]])
     return out
 
 
@@ -155,6 +171,8 @@ def enc_jv(v):
         return [1, v]
     if v is None:
         return [3]
+    if isinstance(v, Choice):
+        return [5, list(v.value)]
     return [4, json.dumps(v, separators=(',', ':'))]
 
 
@@ -425,6 +443,11 @@ def prefix_of(order):
     return order
 
 
+def as_loaded(attrs):
+    """what an attribute dictionary written in the file is declared to mean: 'a|b' is a choice"""
+    return {k: (Choice(v.split('|')) if isinstance(v, str) and '|' in v else v) for k, v in attrs.items()}
+
+
 class Gen:
     """Builds the text of a .ff file together with what it declares (the expectation)."""
 
@@ -563,7 +586,7 @@ class Gen:
         if attrs:
             text += r.choice([' ', '']) + json.dumps(attrs)
         used.pop('order', None)
-        return text, used
+        return text, as_loaded(used)
 
     def link_like(self, kind):
         r = self.rng
@@ -574,9 +597,18 @@ class Gen:
         name = None
         if kind == 'link':
             self.header('link')
-            if r.random() < 0.4:
+            k = r.random()
+            if k < 0.3:
                 all_nodes['resname'] = r.choice(['ALA', 'GLY', 'L%d' % self.serial])
                 self.emit('resname %s' % json.dumps(all_nodes['resname']))
+            elif k < 0.45:
+                names = r.sample(['ALA', 'GLY', 'LYS', 'SER'], r.randint(2, 3))
+                all_nodes['resname'] = Choice(names)
+                self.emit('resname %s' % json.dumps('|'.join(names)))
+            elif k < 0.55:
+                v = r.choice(['PRO', 1, None])
+                all_nodes['resname'] = NotDefinedOrNot(v)
+                self.emit('resname not(%s)' % json.dumps(v))
             orders = [0, 0, 1, 1, -1, 2, '>', '>>', '<', '*']
         else:
             self.header('modification')
@@ -588,6 +620,8 @@ class Gen:
         for b in bases:
             o = r.choice(orders)
             extra = {'atype': r.choice(['P5', 'Qd'])} if r.random() < 0.3 else {}
+            if r.random() < 0.15:
+                extra['secstruc'] = r.choice(['H|1', 'E|B|S'])
             abstract.append((b, o, extra))
         # the same base may appear with two different orders
         if kind == 'link' and r.random() < 0.5:
@@ -636,7 +670,7 @@ class Gen:
                     key = pre + b
                     nodes.setdefault(key, {})
                     self.emit('%s %s' % (text, json.dumps(attrs)), linkatom=True)
-                    used = dict(attrs)
+                    used = as_loaded(attrs)
                     used.pop('order', None)
                     touch(key, atom, used, defaults={'PTM_atom': False} if kind == 'modification' else None)
             elif k < 0.3 and kind == 'link' and self.rich:
@@ -669,6 +703,10 @@ class Gen:
                         texts.append(text)
                         keys.append(key)
                     written, expected = self.params(sect)
+                    if r.random() < 0.15:
+                        eff = r.choice(['dist(BB,+BB)', 'angle(BB,+BB,++BB)', 'dihedral(A,B,C,D|.1f)',
+                                        'dihphase(A,B,C,D)', 'dist(BB,SC1|.3f)'])
+                        written, expected = written + [eff], expected + [eff]
                     delim = ['--'] if (n is None or r.random() < 0.4) else []
                     self.emit(' '.join(texts + delim + written + self.maybe_meta()),
                               linkinter=sect, natoms=n, nref=kk, delim=bool(delim))
@@ -719,7 +757,7 @@ class Gen:
 
 
 FAULTS = ['unknown_section', 'undefined_atom', 'duplicate_atom', 'unbalanced_braces', 'order_conflict', 'arity',
-          'index_zero']
+          'index_zero', 'effector']
 
 
 def inject(gen, fault, rng):
@@ -747,6 +785,17 @@ def inject(gen, fault, rng):
         j = rng.randrange(tag['nref'])
         toks[j] = rng.choice(['ZZ9', str(tag['natoms_block'] + rng.randint(1, 3)), 'Q'])
         L[i] = (' '.join(toks), tag)
+        return [t for t, _ in L]
+    if fault == 'effector':
+        # unknown parameter effector / wrong number of keys / two formats
+        c = idx(lambda t, tag: 'linkinter' in tag)
+        if not c:
+            return None
+        i = rng.choice(c)
+        t, tag = L[i]
+        L[i] = (t + ' ' + rng.choice(['foo(A,B)', 'dist(A)', 'angle(A,B)', 'dist(A,B|.1f|x)', 'dihedral(A,B,C)']), tag)
+        if '{' in t.split(' ')[-1]:
+            return None
         return [t for t, _ in L]
     if fault == 'index_zero':
         # known finding F-C13-4: the (1-based) atom index 0 in a block interaction
@@ -1112,6 +1161,9 @@ ITP_SECTIONS = ['bonds', 'angles', 'dihedrals', 'constraints', 'pairs', 'exclusi
 def gen_itp(rng):
     lines, blocks = [], collections.OrderedDict()
     idx_table = dict(ITPDirector.atom_idxs)
+    meta = None          # (condition, tag) in force
+    if rng.random() < 0.2:
+        lines.append('#define FLEXIBLE')
     for b in range(rng.randint(1, 4)):
         name = rng.choice(['MOL%d' % b, 'MOL%d' % b, 'PROT'])
         lines += ['[ moleculetype ]', '%s %d' % (name, rng.randint(1, 3)), '[ atoms ]']
@@ -1126,6 +1178,17 @@ def gen_itp(rng):
             sect = rng.choice(ITP_SECTIONS)
             lines.append('[ %s ]' % sect)
             for _ in range(rng.randint(1, 3)):
+                k = rng.random()
+                if meta is None and k < 0.2:
+                    cond = rng.choice(['ifdef', 'ifndef'])
+                    meta = (cond, rng.choice(['FLEXIBLE', 'POSRES']))
+                    lines.append('#%s %s' % meta)
+                elif meta is not None and k < 0.25:
+                    meta = ({'ifdef': 'ifndef', 'ifndef': 'ifdef'}[meta[0]], meta[1])
+                    lines.append(rng.choice(['#else', '#else ; other branch']))
+                elif meta is not None and k < 0.55:
+                    meta = None
+                    lines.append('#endif')
                 idxs = idx_table[sect]
                 if sect == 'exclusions':
                     toks = [str(rng.randint(1, n)) for _ in range(rng.randint(1, 4))]
@@ -1139,9 +1202,21 @@ def gen_itp(rng):
                     params = [rng.choice(['1', '0.25', '1000']) for _ in range(rng.randint(0, 3))]
                     toks = atoms + params
                 lines.append(' '.join(toks))
-                inters.append([sect, [str(int(a) - 1) for a in atoms], params])
+                inters.append([sect, [str(int(a) - 1) for a in atoms], params, list(meta) if meta else []])
         blocks[name] = [name, [str(i) for i in range(n)], sorted(inters, key=lambda x: x[0])]
+    if meta is not None:
+        lines.append('#endif')
     return lines, list(blocks.values())
+
+
+def canon_inters_meta(idict):
+    out = []
+    for sect in sorted(idict):
+        for it in idict[sect]:
+            m = [[k, v] for k, v in it.meta.items()]
+            out.append([sect, [str(a) for a in it.atoms], [canon_param(p) for p in it.parameters],
+                        list(m[0]) if m else []])
+    return out
 
 
 def run_itp():
@@ -1160,8 +1235,16 @@ def run_itp():
             elif k < 0.6:
                 j = [q for q, t in enumerate(bad) if t.startswith('[ atoms ]')][0]
                 bad.insert(j + 2, bad[j + 1])
-            else:
+            elif k < 0.8:
                 bad += ['[ bonds ]', rng.choice(['0 1 1', '1 99 1', 'BB 1 1'])]
+            else:
+                # pragma faults: #endif without #ifdef, nested / unclosed #ifdef, #else alone, unknown pragma
+                clean = [t for t in bad if not t.startswith('#')]
+                pr = rng.choice([['#endif'], ['#ifdef A', '#ifdef B', '#endif', '#endif'], ['#ifdef A'], ['#else'],
+                                 ['#include "x.itp"'], ['#if A', '#endif'], ['#ifdef', '#endif'],
+                                 ['#ifdefX A', '#else', '#endif']])
+                j = rng.randint(0, len(clean))
+                bad = clean[:j] + pr[:1] + clean[j:] + pr[1:]
             cases.append(('itp-%d-fault' % i, bad, None))
     lines = [line('itp', ls) for _, ls, _ in cases]
     for (cid, ls, exp), ln, mo in zip(cases, lines, ask(lines)):
@@ -1169,7 +1252,7 @@ def run_itp():
         errs = []
         try:
             read_itp(ls, ff)
-            got = [[k, [str(n) for n in b.nodes], canon_inters(b.interactions)] for k, b in ff.blocks.items()]
+            got = [[k, [str(n) for n in b.nodes], canon_inters_meta(b.interactions)] for k, b in ff.blocks.items()]
             im = enc(got)
         except Exception as e:
             got, im = None, 'error'
@@ -1202,31 +1285,99 @@ def toy_force_fields(rng):
     return ffs, atoms
 
 
+def backmap_library(ffs):
+    return [[name, [[bn, [[str(k), b.nodes[k]['atomname']] for k in b.nodes]] for bn, b in ff.blocks.items()
+                    if all('atomname' in b.nodes[k] for k in b.nodes)]]
+            for name, ff in ffs.items()]
+
+
+def backmap_impl(lines, ffs):
+    """canonical string of what read_backmapping_file loaded: one row per (from_ff, to_ff, name) in
+    dictionary order with the (from index, to index, weight) entries and the extra atoms"""
+    try:
+        out = map_input.read_backmapping_file(lines, ffs)
+    except Exception:
+        return None, 'error'
+    rows = []
+    for f, d in out.items():
+        for t, d2 in d.items():
+            for name, m in d2.items():
+                es = []
+                for i, dd in m.mapping.items():
+                    for j, w in dd.items():
+                        fr = Fraction(w).limit_denominator(10 ** 6)
+                        es.append(enc([str(i), str(j), fr.numerator, fr.denominator]))
+                rows.append('[ %s %s %s %s %s ]' % (enc(f), enc(t), enc(name),
+                                                    '[ ' + ' '.join(sorted(es)) + ' ]' if es else '[ ]',
+                                                    enc(list(m.block_to.extra))))
+    return out, 'ok ' + ('[ ' + ' '.join(rows) + ' ]' if rows else '[ ]')
+
+
 def run_maps():
     rng = chk.rng('maps')
     ffs, atoms = toy_force_fields(rng)
+    lib = backmap_library(ffs)
+    cases = []
     for i in range(3000 if chk.thorough else 300):
         # ---- backward style .map ----
-        lines, decl = [], collections.OrderedDict()
+        lines, decl, ffdecl = [], collections.OrderedDict(), {}
         fault = rng.random() < 0.2
-        for res in rng.sample(['ALA', 'GLY', 'LYS'], rng.randint(1, 3)):
-            lines += ['[ molecule ]', res, '[ from ]', 'aa', '[ to ]', 'cg', '[ atoms ]']
+        simple = rng.random() < 0.6        # simple files have an independent expectation
+        for res in rng.sample(['ALA', 'GLY', 'LYS'] + ([] if simple else ['UNK']), rng.randint(1, 3)):
+            lines += [rng.choice(['[ molecule ]', '[molecule]', '[ molecule ] ; c']), res]
+            froms, tos_ff = [], []
+            if simple:
+                lines += ['[ from ]', 'aa', '[ to ]', 'cg']
+                froms, tos_ff = ['aa'], ['cg']
+            else:
+                k = rng.random()
+                if k < 0.5:
+                    v = rng.choice(['aa', 'aa other', 'aa cg'])
+                    lines += [rng.choice(['[ from ]', '[ mapping ]']), v]
+                    froms = v.split()
+                if rng.random() < 0.6:
+                    v = rng.choice(['cg', 'cg aa', 'nope'])
+                    lines += ['[ to ]', v]
+                    tos_ff = v.split()
+                if rng.random() < 0.3:
+                    lines += ['[ martini ]', 'BB SC1', '[ extra ]', 'X1 X2']
+            ffdecl[res] = (froms or ['universal'], tos_ff or ['martini22'])
+            lines.append('[ atoms ]')
             m = collections.OrderedDict()
-            for k, a in enumerate(rng.sample(atoms['aa'], rng.randint(1, 6))):
+            pool = atoms['aa'] if simple else atoms['aa'] + ['QQ']
+            for k, a in enumerate(rng.sample(pool, rng.randint(1, 6))):
                 tos = [('!' if rng.random() < 0.2 else '') + rng.choice(atoms['cg']) for _ in range(rng.randint(0, 4))]
                 m[a] = tos
-                lines.append('%d %s %s' % (k + 1, a, ' '.join(tos)))
+                lines.append('%d %s %s%s' % (k + 1, a, ' '.join(tos), rng.choice(['', ' ; c'])))
+            if not simple and rng.random() < 0.2:
+                lines += ['[ chiral ]', 'CB CA N C']
             decl[res] = m
         conflict = any(('!' + t) in tos for m in decl.values() for tos in m.values() for t in tos)
         if fault:
-            lines.insert(rng.randint(0, len(lines)), rng.choice(['[ molecule', '[ molecule ]']))
+            k = rng.random()
+            if k < 0.5:
+                lines.insert(rng.randint(0, len(lines)), rng.choice(['[ molecule', '[ molecule ]']))
+            elif k < 0.7:
+                j = [q for q, t in enumerate(lines) if t == '[ atoms ]']
+                lines.insert(rng.choice(j) + 1, '1 N ZZ')         # target atom that the block does not have
+            elif k < 0.85:
+                j = [q for q, t in enumerate(lines) if t == '[ atoms ]']
+                lines.insert(rng.choice(j) + 1, '7')              # atom line without a source atom
+            else:
+                lines = [t for t in lines if 'molecule' not in t]
+        cases.append((lines, decl, fault, simple, conflict, ffdecl))
+    plines = [line('backmap', lib, ls) for ls, *_ in cases]
+    for i, ((lines, decl, fault, simple, conflict, ffdecl), ln, mo) in enumerate(zip(cases, plines, ask(plines))):
         errs = []
-        try:
-            out = map_input.read_backmapping_file(lines, ffs)
-            im = 'ok'
-        except Exception as e:
-            out, im = None, 'error'
-        if not fault:
+        out, im = backmap_impl(lines, ffs)
+        if not fault and not conflict and out is not None:
+            # every molecule is loaded for exactly the declared (origin, destination) force-field pairs
+            want3 = {(f, t, res) for res, (fl, tl) in ffdecl.items() for f in fl for t in tl
+                     if f in ffs and t in ffs and res in ffs[f].blocks and res in ffs[t].blocks}
+            have3 = {(f, t, n) for f, d in out.items() for t, d2 in d.items() for n in d2}
+            if want3 != have3:
+                errs.append('.map loaded for %r, declared for %r' % (sorted(have3), sorted(want3)))
+        if not fault and simple:
             if conflict:
                 if out is not None:
                     errs.append('.map with a target both with and without "!" was loaded')
@@ -1251,8 +1402,10 @@ def run_maps():
                     have = {(f, t): Fraction(w).limit_denominator(10 ** 6) for f, d in mp.items() for t, w in d.items()}
                     if have != want:
                         errs.append('.map weights of %s: loaded %r, declared %r' % (res, have, want))
-        chk.count('map_' + im + ('_fault' if fault else ''))
-        chk.case('map-%d' % i, enc(lines), im, None, errs, len(decl) >= 2 or fault)
+        elif fault and simple and out is not None and any(t == '1 N ZZ' for t in lines):
+            errs.append('.map naming a target atom the block does not have was loaded')
+        chk.count('map_' + im.split()[0] + ('_fault' if fault else '') + ('' if simple else '_rich'))
+        chk.case('map-%d' % i, ln, im, mo, errs, len(decl) >= 2 or fault)
     # ---- new style .mapping files through read_mapping_file (oracle only) ----
     for i in range(2000 if chk.thorough else 250):
         lines, decl = [], collections.OrderedDict()
@@ -1375,32 +1528,35 @@ def run_shipped():
         meta.append((path, im, errs))
     for (path, im, errs), mo in zip(meta, ask(lines_p)):
         rel = os.path.relpath(path, data)
-        if mo != im:
-            # the Lean reader does not interpret predicates / parameter effectors: compare only when it can
-            text = open(path).read()
-            if re.search(r'\w\(', text) or '|' in text:
-                chk.count('shipped_model_skipped')
-                mo = None
         chk.count('shipped_ff')
-        chk.case('shipped-' + rel, 'ff-file ' + rel, clip(im, 200) if mo is None else im, mo, errs, True)
+        chk.case('shipped-' + rel, 'ff-file ' + rel, im, mo, errs, True)
     # mappings: every [ molecule ] of a .map file and every [ block ]/[ modification ] of a .mapping yields one entry
     import vermouth.forcefield as vff
     known = vff.find_force_fields(os.path.join(data, 'force_fields'))
-    for path in sorted(glob.glob(os.path.join(data, 'mappings', '**', '*.map'), recursive=True)):
+    mfiles = sorted(glob.glob(os.path.join(data, 'mappings', '**', '*.map'), recursive=True))
+    mlines, mmeta = [], []
+    for path in mfiles:
         ls = open(path).read().split('\n')
+        words = {t.split(';')[0].strip() for t in ls}
+        # only the blocks a molecule of this file can name are sent to the model
+        lib = [[name, [[bn, [[str(k), b.nodes[k]['atomname']] for k in b.nodes]] for bn, b in ff.blocks.items()
+                       if bn in words and all('atomname' in b.nodes[k] for k in b.nodes)]]
+               for name, ff in known.items()]
+        mlines.append(line('backmap', lib, ls))
+        mmeta.append((path, ls))
+    for (path, ls), mo in zip(mmeta, ask(mlines)):
         errs = []
-        try:
-            out = map_input.read_backmapping_file(ls, known)
-        except Exception as e:
-            out = None
-            errs.append('shipped mapping %s rejected: %r' % (path, e))
+        out, im = backmap_impl(ls, known)
+        if out is None:
+            errs.append('shipped mapping %s rejected' % path)
         nmol = sum(1 for t in ls if t.split(';')[0].strip().replace(' ', '') == '[molecule]')
         if out is not None:
             names = {n for a in out.values() for b in a.values() for n in b}
             if nmol and len(names) > nmol:
                 errs.append('%s: %d molecules declared, %d names loaded' % (path, nmol, len(names)))
         chk.count('shipped_map')
-        chk.case('shipped-' + os.path.relpath(path, data), 'map-file ' + os.path.relpath(path, data), 'ok', None, errs, True)
+        rel = os.path.relpath(path, data)
+        chk.case('shipped-' + rel, 'map-file ' + rel, im, mo, errs, True)
     for path in sorted(glob.glob(os.path.join(data, 'mappings', '**', '*.mapping'), recursive=True)):
         ls = open(path).read().split('\n')
         errs = []
@@ -1424,6 +1580,7 @@ run_ffdisp()
 run_ff()
 run_itp()
 run_maps()
+c13_mapping.run_mapping(chk, ask)
 if chk.thorough:
     run_shipped()
 chk.extra['pending_findings'] = PENDING
